@@ -240,7 +240,34 @@ func c14History(c *core.Ctx, env *idxEnv, r *rand.Rand, h int) {
 			}
 			continue
 		}
-		m, before, after := env.mutate(r, ids, n)
+		var m idxMut
+		var before, after interface{}
+		if cid := ids[r.Intn(len(ids))]; step%9 == 4 && env.model[cid] != nil {
+			// an Update that moves the value to other keys but fails at commit (another
+			// transaction rewrote the value, keys unchanged, in between): nothing happened as far
+			// as the indexes and the query subscribers are concerned
+			cur := env.model[cid]
+			k1, _ := valKey(cur, "k")
+			k2, _ := valKey(cur, "k2")
+			inner := mkValue2(env.typed, fmt.Sprintf("u%d.other", n), k1, k2)
+			outer := mkValue2(env.typed, fmt.Sprintf("u%d.lost", n), "zfail", "zf")
+			env.setModel(cid, inner)
+			uerr, injected := env.updateWithFailingCommit(cid, inner, outer)
+			m = idxMut{ID: cid, Op: "update-failing-at-commit", K: "zfail", K2: "zf"}
+			if !injected || uerr == nil {
+				// no conflict was produced: the outer update simply took place
+				c.Obs("commit_conflicts_not_produced", 1)
+				env.setModel(cid, outer)
+				env.qs.Flush()
+				hist = append(hist, m)
+				continue
+			}
+			m.Err = uerr.Error()
+			c.Obs("updates_failing_at_commit", 1)
+			before, after = cur, cur
+		} else {
+			m, before, after = env.mutate(r, ids, n)
+		}
 		hist = append(hist, m)
 		env.qs.Flush()
 		c.Eval(1)
@@ -249,7 +276,10 @@ func c14History(c *core.Ctx, env *idxEnv, r *rand.Rand, h int) {
 		mu.Unlock()
 		if m.Err != "" {
 			if len(got) > 0 {
-				c.Violation("C14/callback-on-failed-mutation", "OnQueryChange ran for a failed mutation", m)
+				c.Violation("C14/callback-on-failed-mutation", fmt.Sprintf("OnQueryChange ran for a failed mutation (%s of %s: %s)", m.Op, m.ID, m.Err), m)
+			}
+			if m.Op == "update-failing-at-commit" {
+				env.checkQueries(c, "C14", hist, []idxQuery{{Index: "k", Prefix: "", Limit: -1}, {Index: "k", Prefix: "zfail", Limit: -1}, {Index: "x2", Prefix: "", Limit: -1}, {Index: "x2", Prefix: "zf", Limit: -1}}, fmt.Sprintf("h%d/after-failed-commit", h))
 			}
 			continue
 		}
